@@ -220,15 +220,23 @@ class Run:
         f1 = sp.get("fault1")
         env_uri = f1["uri"] if f1 and f1["t"] == "swap" else sp["uri"]
         calls = []
+        # 1-3 handlers on ONE subscription id (the broker answers every SUBSCRIBE for the topic with the same id),
+        # with and without details_arg
+        hspec = sp.get("handlers") or [False]
 
-        def handler(*a, **k):
-            calls.append(["invoked", [vid(x) for x in a], [[kk, vid(x)] for kk, x in k.items()]])
+        def make_handler(idx, with_details):
+            def handler(*a, **k):
+                k.pop("details", None)
+                calls.append([idx, [vid(x) for x in a], [[kk, vid(x)] for kk, x in k.items()]])
+            return handler
 
-        # one subscription, for the envelope URI
-        B.s.subscribe(handler, env_uri)
-        req = [m for m in bw.sent if isinstance(m, message.Subscribe)][-1].request
-        B.recv_msg(message.Subscribed(req, 101))
-        turn()
+        for idx, with_details in enumerate(hspec, 1):
+            B.s.subscribe(make_handler(idx, with_details), env_uri,
+                          options=types.SubscribeOptions(details_arg="details") if with_details else None)
+            req = [m for m in bw.sent if isinstance(m, message.Subscribe)][-1].request
+            B.recv_msg(message.Subscribed(req, 101))
+            turn()
+        assert len(B.s._subscriptions[101]) == len(hspec)
         args = [VALUES[i] for i in sp["args"]]
         kwargs = {k: VALUES[i] for k, i in sp["kwargs"]}
         try:
@@ -251,10 +259,8 @@ class Run:
             raised = [e for e in B.log[nlog:] if e[0] == "raised"]
             if raised:
                 results.append((label, ["raised", raised[0][2]]))
-            elif len(calls) > n0:
-                results.append((label, calls[-1]))
             else:
-                results.append((label, ["ignored"]))
+                results.append((label, ["handlers", calls[n0:]]))
         self.tally(leg, results)
 
     # ---------------------------------------------------------------- call / invocation / yield / result / error
